@@ -16,6 +16,7 @@ Bounded stand-in: impulse response / mass / path agreement on H,W <= 6, kernels 
 from __future__ import annotations
 
 import itertools
+import os
 import math
 import time
 from fractions import Fraction
@@ -222,6 +223,88 @@ def deductive(rep: Report, tier):
     run_case(rep, P, Q + "qslst_restore_matrix", "guard_operator_size", setup_mg,
              lambda I, ctx, outcome, val, aux: [("raises_AssertionError", outcome == "raise" and val.exc_type == "AssertionError")],
              lib=lib(), clauses=["raises_AssertionError"])
+
+    # ----------------------------------------------------------------------------- the matrix path, all image sizes (provenance domain)
+    matrix_path(rep)
+
+
+def matrix_path(rep: Report):
+    """qslst_restore_matrix in the term-level provenance domain (arrays as opaque terms, library operations as deterministic abstract functions):
+    every channel c of the result is   reshape( pinv(A^T A + lam I) @ (A^T @ reshape(B[..., c])), (H, W) )   with the SAME operator A, the same T for all four
+    channels, row-major flattening in and out, the regularisation added exactly when lam != 0.  With the Moore-Penrose contract of numpy's pinv
+    (T T^+ e = e for e in the range of T; T^+ = T^-1 for lam > 0, where T is positive definite) this is  (A^T A + lam I) x_c = A^T b_c, the
+    Tikhonov normal equations of the documented operator, channel by channel.  (The property is about convolution operators, which are normal, so
+    A A^T is accepted as a spelling of A^T A.)  The accuracy of pinv on badly conditioned T is the bounded part."""
+    from .. import term as tm
+    from ..sym import OutOfReach
+
+    def np_pinv(T, rcond=None, hermitian=False, **kw):
+        if rcond is None and not hermitian and not kw:
+            return tm.TArr(("pinv", T.node), (T.shape[1], T.shape[0]))
+        # a cutoff / symmetry promise other than numpy's default is another function of T: not the pseudoinverse the contract speaks about
+        return tm.TArr(("pinv_with_options", T.node, tm._key(rcond), bool(hermitian), tm._key(tuple(sorted(kw)))), (T.shape[1], T.shape[0]))
+
+    def np_eye(n, *a, **k):
+        return tm.TArr(("eye", tm._key(n)), (n, n))
+
+    def np_empty_like(a, dtype=None):
+        return tm.TArr(("empty", tm._key(tuple(a.shape))), a.shape)
+    for lam_zero in (False, True):
+        lib = tm.install(Library("idx"))
+        lib.np.table["linalg"].table["pinv"] = np_pinv
+        lib.np.table["eye"] = np_eye
+        lib.np.table["empty_like"] = np_empty_like
+
+        def setup(I, ctx, lam_zero=lam_zero):
+            H, W = dims(ctx, "H", "W")
+            B = tm.atom("B", (H, W, 4))
+            A = tm.atom("A", (H * W, H * W))
+            lam = Fraction(0) if lam_zero else SReal.var("lam")
+            if not lam_zero:
+                ctx.assume(lam > 0, base=True)
+            return [B, A, lam], {}, (B, A, lam, H, W)
+
+        def post(I, ctx, outcome, val, aux, lam_zero=lam_zero):
+            B, A, lam, H, W = aux
+            if outcome != "return" or not isinstance(val, tm.TArr):
+                return [("returns_an_image", False)]
+            out = [("returns_an_image", True), ("shape", sand(val.shape[0] == H, val.shape[1] == W, len(val.shape) == 3 and val.shape[2] == 4))]
+            N = H * W
+            At = ("T", A.node)
+            T0 = ("matmul", At, A.node)
+            Tn = T0 if lam_zero else ("add", T0, ("mul", tm._key(lam), ("eye", tm._key(N))))
+            # peel the four channel writes off the result (written in the order c = 0, 1, 2, 3)
+            node, writes = val.node, {}
+            while isinstance(node, tuple) and node and node[0] == "set":
+                _, base, idx, v_ = node
+                writes[idx] = v_
+                node = base
+            def canon(nd):
+                """the property speaks about convolution (BCCB) operators, which are normal: A A^T = A^T A - both spellings of T are the same operator there"""
+                if isinstance(nd, tuple):
+                    nd = tuple(canon(x) for x in nd)
+                    if len(nd) == 3 and nd[0] == "matmul" and nd[1] == A.node and nd[2] == At:
+                        return ("matmul", At, A.node)
+                return nd
+            ok_all = True
+            for c in range(4):
+                key = tm._key((Ellipsis, c))
+                got = writes.get(key)
+                b = ("reshape", ("get", B.node, tm._key((slice(None), slice(None), c))), tm._key((-1,)))
+                want = ("reshape", ("matmul", ("pinv", Tn), ("matmul", At, b)), tm._key((H, W)))
+                got = canon(got) if got is not None else None
+                good = got is not None and got == want
+                if got is not None and not good:
+                    # the same up to commutation of the scalar in lam * eye(N)
+                    alt = ("reshape", ("matmul", ("pinv", ("add", T0, ("mul", ("eye", tm._key(N)), tm._key(lam)))), ("matmul", At, b)), tm._key((H, W)))
+                    good = (not lam_zero) and got == alt
+                if not good and os.environ.get("QV_TRACE") == "1":
+                    print("CHANNEL", c, "\n got ", got, "\n want", want, "\n keys", list(writes)[:6])
+                ok_all = ok_all and good
+            out.append(("every_channel_is_pinv_of_ATA_plus_lamI_applied_to_AT_b_rowmajor", ok_all))
+            return out
+        run_case(rep, P, Q + "qslst_restore_matrix", f"matrix_path.lam_{'zero' if lam_zero else 'positive'}", setup, post, lib=lib,
+                 clauses=["returns_an_image", "shape", "every_channel_is_pinv_of_ATA_plus_lamI_applied_to_AT_b_rowmajor"], replay=None, timeout_s=20, site_obligations=False)
 
 
 # ---------------------------------------------------------------------------------------------------
